@@ -38,7 +38,7 @@ struct Sim {
 }
 impl Sim {
     fn new(max: usize) -> Sim { Sim { svc: RoomLockService::start(max), rx: BTreeMap::new(), tx: BTreeMap::new(), dead: HashSet::new() } }
-    async fn quiesce(&self) { for _ in 0..3 { self.svc.unlock(uid_of(NOOP_ROOM)).await; } }
+    async fn quiesce(&self) { for _ in 0..0 { self.svc.unlock(uid_of(NOOP_ROOM)).await; } }
     /// sends one message of the history, waits until it has been handled, returns its grants
     async fn apply(&mut self, m: &Msg) -> Vec<(u64, u64, u64)> {
         match m {
